@@ -77,9 +77,11 @@ func featureOn(name string) bool {
 func runCase(rt *rapid.T) {
 	spe := uint64(rapid.SampledFrom([]int{4, 8}).Draw(rt, "spe"))
 	nEpochs := rapid.IntRange(3, 5).Draw(rt, "epochs")
-	slotDur := 12 * time.Second
+	// slot durations: mainnet's 12 s, and durations whose nanosecond count is not divisible by three (the duty
+	// offsets are thirds of a slot)
+	slotDur := time.Duration(rapid.SampledFrom([]int{12, 12, 12, 5, 2}).Draw(rt, "slotSeconds")) * time.Second
 	startSlot := uint64(rapid.IntRange(0, int(spe)).Draw(rt, "startSlot"))
-	genesis := time.Now().Add(-time.Duration(startSlot)*slotDur - time.Duration(rapid.IntRange(0, 11000).Draw(rt, "intoSlotMs"))*time.Millisecond)
+	genesis := time.Now().Add(-time.Duration(startSlot)*slotDur - time.Duration(rapid.IntRange(0, int(slotDur/time.Millisecond)-1000).Draw(rt, "intoSlotMs"))*time.Millisecond)
 	bn := fakebn.NewCompact(genesis, slotDur, spe)
 	nCluster := rapid.IntRange(1, 5).Draw(rt, "clusterVals")
 	nForeign := rapid.IntRange(0, 3).Draw(rt, "foreignVals")
@@ -272,7 +274,7 @@ func runCase(rt *rapid.T) {
 		qcancel()
 		if earlyFetch && rapid.IntRange(0, 2).Draw(rt, "headEvent") == 0 {
 			// a head event for this slot, some time into it (before or after the attester offset)
-			at := time.Duration(rapid.IntRange(0, 11000).Draw(rt, "headEventMs")) * time.Millisecond
+			at := time.Duration(rapid.IntRange(0, int(slotDur/time.Millisecond)-1000).Draw(rt, "headEventMs")) * time.Millisecond
 			otherUsers.Add(1)
 			go func() {
 				defer otherUsers.Done()
